@@ -46,7 +46,7 @@ ASSUMPTIONS = [
     "'never older than one already recorded' is judged on the tick time of the report that produced the row (stale-value) in addition to the row time (monotone)",
 ]
 TIERS = {
-    "quick": {"cases": 4000, "budget_s": 170},
+    "quick": {"cases": 3000, "budget_s": 170},
     "thorough": {"cases": 200000, "budget_s": 800},
 }
 T0 = AggHarness.T0
